@@ -23,6 +23,7 @@ type scheme struct {
 	Name string `json:"name"`
 	Kind string `json:"kind"` // hdr, qry, ck, basic, bearer, oauth2
 	Par  string `json:"par"`  // header / query / cookie name
+	Go   string `json:"go"`   // name of the generated Go type (where it differs from the scheme name)
 }
 
 type alt struct {
@@ -45,21 +46,21 @@ func main() {
 		n := fmt.Sprintf("S%02d", i)
 		switch i % 3 {
 		case 0:
-			schemes = append(schemes, scheme{n, "hdr", fmt.Sprintf("X-K%02d", i)})
+			schemes = append(schemes, scheme{Name: n, Kind: "hdr", Par: fmt.Sprintf("X-K%02d", i)})
 			defs[n] = M{"type": "apiKey", "in": "header", "name": fmt.Sprintf("X-K%02d", i)}
 		case 1:
-			schemes = append(schemes, scheme{n, "qry", fmt.Sprintf("k%02d", i)})
+			schemes = append(schemes, scheme{Name: n, Kind: "qry", Par: fmt.Sprintf("k%02d", i)})
 			defs[n] = M{"type": "apiKey", "in": "query", "name": fmt.Sprintf("k%02d", i)}
 		default:
-			schemes = append(schemes, scheme{n, "ck", fmt.Sprintf("c%02d", i)})
+			schemes = append(schemes, scheme{Name: n, Kind: "ck", Par: fmt.Sprintf("c%02d", i)})
 			defs[n] = M{"type": "apiKey", "in": "cookie", "name": fmt.Sprintf("c%02d", i)}
 		}
 	}
 	iBasic, iBearer, iOauth := wide, wide+1, wide+2
-	schemes = append(schemes, scheme{"SBasic", "basic", ""}, scheme{"SBearer", "bearer", ""}, scheme{"SOauth", "oauth2", ""})
+	schemes = append(schemes, scheme{Name: "SBasic", Kind: "basic", Par: ""}, scheme{Name: "SBearer", Kind: "bearer", Par: ""}, scheme{Name: "SOauth", Kind: "oauth2", Par: ""})
 	// two schemes on one credential channel, and one parameter name in two locations
 	iBearer2, iSameQ, iSameC := wide+3, wide+4, wide+5
-	schemes = append(schemes, scheme{"SBearer2", "bearer", ""}, scheme{"SSameQ", "qry", "X-K00"}, scheme{"SSameC", "ck", "X-K00"})
+	schemes = append(schemes, scheme{Name: "SBearer2", Kind: "bearer", Par: ""}, scheme{Name: "SSameQ", Kind: "qry", Par: "X-K00"}, scheme{Name: "SSameC", Kind: "ck", Par: "X-K00"})
 	defs["SBearer2"] = M{"type": "http", "scheme": "bearer"}
 	defs["SSameQ"] = M{"type": "apiKey", "in": "query", "name": "X-K00"}
 	defs["SSameC"] = M{"type": "apiKey", "in": "cookie", "name": "X-K00"}
@@ -162,6 +163,73 @@ func main() {
 	addOp(plain([]int{0}), true)
 	addOp(plain([]int{1}), true)
 	addOp(plain([]int{2}), true)
+	// ----- alternatives the generator cannot implement (openIdConnect, http digest, http negotiate; mutualTLS needs a 3.1 document) under
+	// ignore_not_implemented: such an alternative can never be satisfied; the others keep their
+	// meaning.  Scheme names are spelled the way specs spell them (snake case, so the Go type name
+	// differs from the key) and sort around the unimplemented ones: schemes of an alternative are
+	// visited in name order and registered before the failure is known.
+	iA, iB, iZ := len(schemes), len(schemes)+1, len(schemes)+2
+	schemes = append(schemes, scheme{Name: "a_key", Kind: "hdr", Par: "X-SA", Go: "AKey"}, scheme{Name: "b_key", Kind: "qry", Par: "sb", Go: "BKey"}, scheme{Name: "z_key", Kind: "ck", Par: "sz", Go: "ZKey"})
+	defs["a_key"] = M{"type": "apiKey", "in": "header", "name": "X-SA"}
+	defs["b_key"] = M{"type": "apiKey", "in": "query", "name": "sb"}
+	defs["z_key"] = M{"type": "apiKey", "in": "cookie", "name": "sz"}
+	iM := len(schemes)
+	schemes = append(schemes, scheme{Name: "m_oidc", Kind: "unsupported", Par: "", Go: ""}, scheme{Name: "m_nego", Kind: "unsupported", Par: "", Go: ""}, scheme{Name: "m_digest", Kind: "unsupported", Par: "", Go: ""})
+	defs["m_oidc"] = M{"type": "openIdConnect", "openIdConnectUrl": "https://x/.well-known/openid-configuration"}
+	defs["m_nego"] = M{"type": "http", "scheme": "negotiate"}
+	defs["m_digest"] = M{"type": "http", "scheme": "digest"}
+	skipOps := 0
+	family := func(members []int, maxLen int, needDead bool) {
+		var subsets [][]int
+		for m := 1; m < 1<<len(members); m++ {
+			var a []int
+			for b := range members {
+				if m&(1<<b) != 0 {
+					a = append(a, members[b])
+				}
+			}
+			subsets = append(subsets, a)
+		}
+		var rec func(seq []int)
+		rec = func(seq []int) {
+			if len(seq) > 0 {
+				dead := false
+				var sets [][]int
+				for _, si := range seq {
+					a := append([]int{}, subsets[si]...)
+					for j, s := range a {
+						if s == -1 {
+							dead = true
+							a[j] = iM + skipOps%3
+						}
+					}
+					sets = append(sets, a)
+				}
+				if dead || !needDead {
+					addOp(plain(sets...), true)
+					skipOps++
+				}
+			}
+			if len(seq) == maxLen {
+				return
+			}
+		next:
+			for si := range subsets {
+				for _, u := range seq {
+					if u == si {
+						continue next
+					}
+				}
+				rec(append(append([]int{}, seq...), si))
+			}
+		}
+		rec(nil)
+	}
+	family([]int{iA, -1, iZ}, 3, false)
+	family([]int{iA, iB, -1, iZ}, 2, true)
+	addOp(plain([]int{iM, iM + 1}, []int{iA}), true)
+	addOp(plain([]int{iA, iM, iM + 2}, []int{iA, iZ}), true)
+	addOp(plain([]int{iA, iM + 1}, []int{iA, iM + 2}, []int{iZ, iA}), true)
 	spec := M{"openapi": "3.0.3", "info": M{"title": "t", "version": "1"}, "paths": paths,
 		"security":   []any{M{"S03": []any{}}, M{"S04": []any{}, "S05": []any{}}},
 		"components": M{"securitySchemes": defs}}
@@ -169,7 +237,9 @@ func main() {
 
 	sc := regen.NewScratch(r)
 	defer sc.Close()
-	_, err := regen.Generate(data, regen.Features("paths/server", "paths/client", "ogen/unimplemented"), sc.Path("api"), "api")
+	opts := regen.Features("paths/server", "paths/client", "ogen/unimplemented")
+	opts.Generator.IgnoreNotImplemented = []string{"openIdConnect security", "mutualTLS security", "http security scheme"}
+	_, err := regen.Generate(data, opts, sc.Path("api"), "api")
 	if err != nil {
 		if strings.HasPrefix(err.Error(), "PANIC") {
 			r.Violation(map[string]string{"class": "generator-panic-on-security-spec"}, 0, M{"error": err.Error()})
@@ -201,6 +271,12 @@ func verifOutcome(v string) error {
 `)
 	for _, s := range schemes {
 		n := s.Name
+		if s.Go != "" {
+			n = s.Go
+		}
+		if s.Kind == "unsupported" {
+			continue
+		}
 		var repr, build string
 		switch s.Kind {
 		case "basic":
@@ -215,10 +291,10 @@ func verifOutcome(v string) error {
 		}
 		scopes := ""
 		if s.Kind == "oauth2" {
-			scopes = fmt.Sprintf("\ts.SeenScopes[%q] = append([]string{}, t.Scopes...)\n", n)
+			scopes = fmt.Sprintf("\ts.SeenScopes[%q] = append([]string{}, t.Scopes...)\n", s.Name)
 		}
-		fmt.Fprintf(&sb, "func (s *VerifSec) Handle%s(ctx context.Context, op OperationName, t %s) (context.Context, error) {\n\ts.Calls++\n\ts.Seen[%q] = %s\n\ts.SeenOp[%q] = string(op)\n%s\treturn ctx, verifOutcome(%s)\n}\n\n", n, n, n, repr, n, scopes, repr)
-		fmt.Fprintf(&sb, "func (s *VerifSec) %s(ctx context.Context, op OperationName) (%s, error) {\n\tv, ok := s.Give[%q]\n\tif !ok {\n\t\treturn %s{}, ogenerrors.ErrSkipClientSecurity\n\t}\n\t%s\n}\n\n", n, n, n, n, build)
+		fmt.Fprintf(&sb, "func (s *VerifSec) Handle%s(ctx context.Context, op OperationName, t %s) (context.Context, error) {\n\ts.Calls++\n\ts.Seen[%q] = %s\n\ts.SeenOp[%q] = string(op)\n%s\treturn ctx, verifOutcome(%s)\n}\n\n", n, n, s.Name, repr, s.Name, scopes, repr)
+		fmt.Fprintf(&sb, "func (s *VerifSec) %s(ctx context.Context, op OperationName) (%s, error) {\n\tv, ok := s.Give[%q]\n\tif !ok {\n\t\treturn %s{}, ogenerrors.ErrSkipClientSecurity\n\t}\n\t%s\n}\n\n", n, n, s.Name, n, build)
 	}
 	ob, _ := json.Marshal(M{"ops": ops, "schemes": schemes})
 	fmt.Fprintf(&sb, "const VerifSpecJSON = %q\n", string(ob))
